@@ -67,6 +67,40 @@ class Builder:
             return T.Not(self.item(it[1]))
         raise ValueError(k)
 
+    def coin(self):
+        return self.rng is not None and self.rng.random() < 0.5
+
+    def arg(self, it, ints=False):
+        """an argument of select / groupby / orderby: the Term, or -- for the shapes the API accepts in another form --
+        the column NAME of a field bound to the first FROM item, "*" for the bare star, the int of a positional key"""
+        if it[0] == "t" and self.coin():
+            t = it[1]
+            if t[0] == "field" and t[3] is None and t[2] is not None and t[2][0] == "#0" and t[2][2] is None:
+                return t[1]
+            if t[0] == "star" and t[1] is None and not ints:
+                return "*"
+            if ints and t[0] == "vali" and t[2] is None:
+                return int(t[1])
+        return self.item(it)
+
+    @staticmethod
+    def on_field_names(it, jidx):
+        """column names when the ON item is  #0.c = #j.c [AND ...]  (the shape Joiner.on_field builds)"""
+        if it[0] != "t":
+            return None
+        out = []
+
+        def walk(t):
+            if t[0] == "cplx" and t[1] == "and" and t[4] is None:
+                return walk(t[2]) and walk(t[3])
+            if t[0] == "basic" and t[1] == "eq" and t[4] is None and t[2][0] == "field" and t[3][0] == "field":
+                l, r = t[2], t[3]
+                if l[1] == r[1] and l[3] is None and r[3] is None and l[2] == ["#0", [], None] and r[2] == ["#%d" % jidx, [], None]:
+                    out.append(l[1])
+                    return True
+            return False
+        return out if walk(it[1]) else None
+
     def source(self, s):
         from pypika import AliasedQuery
         if s[0] == "t":
@@ -84,8 +118,13 @@ class Builder:
         q = Q._builder()
         for name, sub in s.get("with", []):
             q = q.with_(self.query(sub), name)
-        for o in fobjs:
-            q = q.from_(o)
+        for n, (x, o) in enumerate(zip(s.get("from", []), fobjs)):
+            if self.coin() and x[0] == "t" and not x[1][1] and x[1][2] is None:
+                q = q.from_(x[1][0])            # the string form: from_("t")
+                fobjs[n] = q._from[-1]          # fields of the specification bind to the Table pypika made
+            else:
+                q = q.from_(o)
+        nfrom = len(fobjs)
         calls = []      # (kind, function q -> q)
 
         def join_call(j, o):
@@ -94,11 +133,15 @@ class Builder:
             def f(q):
                 jn = q.join(o, getattr(E.JoinType, how))
                 if cond[0] == "on":
+                    names = self.on_field_names(cond[1], nfrom + jpos[id(j)])
+                    if names and self.coin():
+                        return jn.on_field(*names)       # on_field("a") == ON <first FROM item>.a = <joined item>.a
                     return jn.on(self.item(cond[1]))
                 if cond[0] == "using":
                     return jn.using(*cond[1])
                 return jn.cross()
             return f
+        jpos = {id(j): n for n, j in enumerate(s.get("joins", []))}
         for j, o in zip(s.get("joins", []), jobjs):
             calls.append(("join", join_call(j, o)))
         if s.get("distinct"):
@@ -110,7 +153,7 @@ class Builder:
                 cut = self.rng.randrange(1, len(sels))
             for part in (sels[:cut], sels[cut:]):
                 if part:
-                    calls.append(("select", lambda q, part=part: q.select(*[self.item(i) for i in part])))
+                    calls.append(("select", lambda q, part=part: q.select(*[self.arg(i) for i in part])))
         if s.get("where") is not None:
             w = s["where"]
             if self.rng is not None and w[0] == "cplx" and w[1] == "and" and self.rng.random() < 0.5:
@@ -120,11 +163,11 @@ class Builder:
             else:
                 calls.append(("where", lambda q: q.where(self.item(w))))
         for g in s.get("groupby", []):
-            calls.append(("groupby", lambda q, g=g: q.groupby(self.item(g))))
+            calls.append(("groupby", lambda q, g=g: q.groupby(self.arg(g, ints=True))))
         if s.get("having") is not None:
             calls.append(("having", lambda q: q.having(self.item(s["having"]))))
         for it, d in s.get("orderby", []):
-            calls.append(("orderby", lambda q, it=it, d=d: q.orderby(self.item(it), **({"order": getattr(Order, d)} if d else {}))))
+            calls.append(("orderby", lambda q, it=it, d=d: q.orderby(self.arg(it, ints=True), **({"order": getattr(Order, d)} if d else {}))))
         if s.get("limit") is not None:
             calls.append(("limit", lambda q: q.limit(s["limit"])))
         if s.get("offset") is not None:
